@@ -75,8 +75,9 @@ def gen_params(prop, quick):
 def ext_params(prop, par):
     """alphabets of the exhaustive extensions of base histories (small on purpose: every combination is replayed)"""
     p = dict(par)
-    p.update(len=3, cbounds=[0, 3] if prop != "C18" else [3], vbounds=[-1, 2], pens=[0, 1, 2] if prop != "C15" else [0, 2],
-             ws=[2] if prop == "C18" else [1, 2], lims=[1], pols=[1], caps=[2], maxc=3, maxv=6)
+    p.update(len=3, cbounds=[0, 3] if prop == "C17" else [3, 6] if prop != "C18" else [3], vbounds=[-1, 2],
+             pens=[0, 1, 2] if prop != "C15" else [0, 1], ws=[2] if prop == "C18" else [1, 2], lims=[1], pols=[1], caps=[2],
+             maxc=3, maxv=6)
     return p
 
 
